@@ -361,20 +361,12 @@ def main(mod) -> None:
         # 5. something broke and no concrete failing input yet: deeper search
         if ctx.broken and not any(v["found"] for v in ctx.violations) and hasattr(mod, "search"):
             mod.search(ctx, list(ctx.broken))
-        if ctx.broken and not ctx.violations and not ctx.known_hits:
+        if ctx.broken and not any(v["found"] for v in ctx.violations):
             tail = ctx.build_log[-4000:] if not ctx.build_ok else ""
             ctx.violation(
                 "broken:" + "|".join(ctx.broken),
                 "proof obligation or correspondence no longer checks: " + "; ".join(ctx.broken),
                 {"broken": ctx.broken, "build_log_tail": tail},
-                found_input=False,
-            )
-        elif ctx.broken and not ctx.violations and ctx.known_hits and not ctx.build_ok:
-            # build broken, only known findings reproduced: the break itself is still unexplained
-            ctx.violation(
-                "broken:" + "|".join(ctx.broken),
-                "proof obligation no longer checks: " + "; ".join(ctx.broken),
-                {"broken": ctx.broken, "build_log_tail": ctx.build_log[-4000:]},
                 found_input=False,
             )
         write_evidence(ctx, mod)
